@@ -169,7 +169,7 @@ theorem opt_step (orc : Oracle) (m : PM) (f : Frame) (rest : List Frame) (o o0 :
     (hpre : ∀ p ∈ pre, titleEq f.cfg.flags.nocase p.name o.name = false)
     (hname : o0.name = o.name) (hty : o0.ty = o.ty) (hlist : o0.flags.list = o.flags.list)
     (hd : PlainDecl o0) (hts : OptToks o ts) :
-    ∃ f' res, parseToks orc m ts = { m with frames := f' :: rest } ∧ AtItem f' ∧ f'.level = f.level ∧ f'.back = f.back ∧
+    ∃ f' res, parseToks orc m ts = { m with frames := f' :: rest } ∧ AtItem f' ∧ f'.level = f.level ∧ f'.back = f.back ∧ f'.opttitle = f.opttitle ∧
       f'.cfg.opts = pre ++ res :: post ∧ f'.cfg.flags = f.cfg.flags ∧ f'.cfg.info.pff = f.cfg.info.pff ∧
       res.vals = o.vals ∧ res.info = o0.info ∧ res.flags.deprecated = false ∧
       res.flags.list = o0.flags.list ∧ res.comment = o0.comment := by
@@ -188,7 +188,7 @@ theorem opt_step (orc : Oracle) (m : PM) (f : Frame) (rest : List Frame) (o o0 :
     rw [ht] at ht'; injection ht' with ht'; subst ht'
     have := C01_assign_denotes orc m f rest o.name t n1 n2 n3 ⟨[], pre.length⟩ o0 v hrun hfr hat.st hat.nd hat.cm
       hlook.1 hlook.2 hget hty4 hd.noParse hd.noValid (by rw [hlist]; exact hl) hd.notMulti (by rw [hty]; exact hconv) hd.free
-    refine ⟨_, Opt.mk o0.info { o0.flags with reset := false, modified := true } o0.subs [v] o0.comment, this, ⟨rfl, hat.cm, ?_⟩, rfl, rfl, ?_, ?_, hpff _ _ _, ?_, rfl, hd.notDep, rfl, rfl⟩
+    refine ⟨_, Opt.mk o0.info { o0.flags with reset := false, modified := true } o0.subs [v] o0.comment, this, ⟨rfl, hat.cm, ?_⟩, rfl, rfl, rfl, ?_, ?_, hpff _ _ _, ?_, rfl, hd.notDep, rfl, rfl⟩
     · intro r o' hr ho'
       simp only at hr ho'
       injection hr with hr; subst hr
@@ -205,7 +205,7 @@ theorem opt_step (orc : Oracle) (m : PM) (f : Frame) (rest : List Frame) (o o0 :
     have := C01_empty_list_item orc m f rest o.name n1 false n2 n3 n4 ⟨[], pre.length⟩ o0 hrun hfr hat.st hat.nd
       hlook.1 hlook.2 hget hty' (by rw [hlist]; exact hl) hd.free
     simp only [asgTok, Bool.false_eq_true, if_false] at this
-    refine ⟨_, (freeValue (o0.markAsg false)).1, this, ⟨rfl, hat.cm, ?_⟩, rfl, rfl, ?_, ?_, hpff _ _ _, ?_, ?_, ?_, by cases o0; rfl, by cases o0; rfl⟩
+    refine ⟨_, (freeValue (o0.markAsg false)).1, this, ⟨rfl, hat.cm, ?_⟩, rfl, rfl, rfl, ?_, ?_, hpff _ _ _, ?_, ?_, ?_, by cases o0; rfl, by cases o0; rfl⟩
     · intro r o' hr ho'
       simp only at hr ho'
       injection hr with hr; subst hr
@@ -231,7 +231,7 @@ theorem opt_step (orc : Oracle) (m : PM) (f : Frame) (rest : List Frame) (o o0 :
       intro o' l; induction l generalizing o' with
       | nil => exact ⟨rfl, rfl, rfl, rfl⟩
       | cons a as ih => simp only [Opt.appendVals]; rw [(ih _).1, (ih _).2.1, (ih _).2.2.1, (ih _).2.2.2]; cases o'; exact ⟨rfl, rfl, rfl, rfl⟩
-    refine ⟨_, (o0.markAsg false).appendVals (v0 :: vs), this, ⟨rfl, hat.cm, ?_⟩, rfl, rfl, ?_, ?_, hpff _ _ _, ?_, ?_, ?_, by rw [(hinfoVals _ _).2.2.1]; cases o0; rfl, by rw [(hinfoVals _ _).2.2.2]; cases o0; rfl⟩
+    refine ⟨_, (o0.markAsg false).appendVals (v0 :: vs), this, ⟨rfl, hat.cm, ?_⟩, rfl, rfl, rfl, ?_, ?_, hpff _ _ _, ?_, ?_, ?_, by rw [(hinfoVals _ _).2.2.1]; cases o0; rfl, by rw [(hinfoVals _ _).2.2.2]; cases o0; rfl⟩
     · intro r o' hr ho'
       simp only at hr ho'
       injection hr with hr; subst hr
@@ -290,7 +290,7 @@ theorem flat_steps (orc : Oracle) : ∀ (os os0 : List Opt) (ts : List (Tok × N
       | cons hA hAs =>
         rename_i o0 os0'
         obtain ⟨hname, hty, hlist, hd⟩ := hA
-        obtain ⟨f1, res, e1, hat1, hlev1, hbk1, hopts1, hfl1, hpf1, hv1, hi1, hdep1, hls1, hcm1⟩ :=
+        obtain ⟨f1, res, e1, hat1, hlev1, hbk1, _hot1, hopts1, hfl1, hpf1, hv1, hi1, hdep1, hls1, hcm1⟩ :=
           opt_step orc m f rest o o0 pre os0' ts1 hrun hfr hat hopts (fun p hp => hpre p hp o (by simp)) hname hty hlist hd h1
         rw [parseToks_append, e1]
         have hresname : res.name = o.name := by
